@@ -113,6 +113,8 @@ def write_table(tier):
     """MATRIX.md from every seeded/<id>/meta.json (all rounds)."""
     rows = []
     for sid in sorted(os.listdir(SEEDED)):
+        if sid.startswith('_'):
+            continue
         mp = os.path.join(SEEDED, sid, 'meta.json')
         if not os.path.exists(mp):
             continue
@@ -143,7 +145,8 @@ def write_table(tier):
 def main():
     tier = os.environ.get('VERIF_TIER', 'quick')
     ids = sorted(d for d in os.listdir(SEEDED)
-                 if os.path.isdir(os.path.join(SEEDED, d)))
+                 if os.path.isdir(os.path.join(SEEDED, d))
+                 and not d.startswith('_'))
     if len(sys.argv) > 1:
         ids = [i for i in ids if any(a in i for a in sys.argv[1:])]
     rows = []
